@@ -51,7 +51,7 @@ Definition W0 : world := {|
 Definition U_int_str : ann := AUnion [AS SInt; AS SStr].
 Definition U_str_int : ann := AUnion [AS SStr; AS SInt].
 
-(* finding 9: unmarshal(list, '[1,2]'), append to the result, unmarshal again *)
+(* design observation 9 (repaired in f57eb40): unmarshal(list, '[1,2]'), append to the result, unmarshal again *)
 Definition h_alias : list op := [OUnmarshal ABareList (INew (VA 5)); OMutResult 0 []].
 Definition o_alias : op := OUnmarshal ABareList (INew (VA 5)).
 Definition o_alias_copy : op := OUnmarshal (AList (AS SInt)) (INew (VA 5)).
